@@ -73,11 +73,24 @@ class Patch:
         self.saved = []
 
 
+class SharedCons:
+    """a single callable object that stays the same across several monitored runs (dispatches to the current monitor)"""
+
+    mon = None
+
+    def __call__(self, X):
+        return self.mon._cons(X)
+
+    def __deepcopy__(self, memo):
+        return self
+
+
 class RunMonitor:
     MAX_VIOL_PER_KEY = 3
 
-    def __init__(self, spec, oracles=None, fault=None, gp_fault=None, filter_script=None, construct_only=False, gp_update_fault=None, second_run=False):
+    def __init__(self, spec, oracles=None, fault=None, gp_fault=None, filter_script=None, construct_only=False, gp_update_fault=None, second_run=False, shared_cons=None):
         self.spec = spec
+        self.shared_cons = shared_cons  # C02: ONE constraint callable object handed to several BADS runs in turn
         self.P = gen.Problem(spec)
         self.want = set(oracles) if oracles is not None else set(ALL)
         self.fault = fault  # C10: dict(k=..., kind=...)
@@ -947,6 +960,14 @@ class RunMonitor:
         allu = [a for a, _ in st["acq"]]
         allz = [zz for _, zz in st["acq"]]
         if not allu:
+            # no acquisition evaluation observed.  If the FILTER seam was observed in this call and let nothing through, the
+            # search has no surviving candidate: it must report an empty search set (the statement's "nothing is evaluated
+            # when nothing feasible is nearby"); a returned point cannot be one of the survivors.  Otherwise the seam moved.
+            if st["gen_out"] and sum(st["gen_out"]) == 0:
+                self.c("C18.es_calls_without_survivors")
+                if np.asarray(us).size != 0 and np.asarray(z).size != 0:
+                    self.v("C18/es-returned-point-without-candidates", returned=us, cls=st["cls"], filter_calls=len(st["gen_out"]), acquisition_evaluations=0)
+                return
             self.struct("es-call-without-observed-acquisition-evaluation", cls=st["cls"])
             return
         U = np.vstack(allu)
@@ -1302,10 +1323,20 @@ class RunMonitor:
         if not (min(n, nmin) <= size <= max(nmax, nmin)):
             self.v("C15/training-set-size-out-of-range", size=int(size), n_logged=int(n), n_train_min=nmin, n_train_max=nmax)
         tol = 1e-12
-        if np.any(np.diff(dr) < -tol * np.maximum(1.0, dr[1:])):
+        # rounding bound of a scaled squared distance recomputed from the stored coordinates: with a very short length scale,
+        # two points at EQUAL true distance (mirror images about u on the mesh) differ by ~eps*|x|*|x-u|/ls^2, far above 1e-12
+        # relative; the code orders by its own floating-point distances, so ties within that bound may come in either order
+        eps_ = np.finfo(float).eps
+        u0 = uu[0] if uu.shape[0] == 1 else np.max(np.abs(uu), axis=0)
+        rb = np.sum(8 * eps_ * (np.abs(U) + np.abs(u0)) * (np.abs(U) + np.abs(u0)) / ls_arr**2, axis=1) if uu.shape[0] > 1 else \
+            np.sum(8 * eps_ * (np.abs(U) + np.abs(u0)) * np.abs(U - u0) / ls_arr**2, axis=1)
+        slack = tol * np.maximum(1.0, dr[1:]) + rb[1:] + rb[:-1]
+        if np.any(np.diff(dr) < -slack):
             self.v("C15/neighbors-not-sorted-by-distance", dist=dr[:8])
+        elif np.any(np.diff(dr) < -tol * np.maximum(1.0, dr[1:])):
+            self.c("C15.neighbor_ties_within_rounding")
         want = np.sort(dl)[:size]
-        if want.shape != dr.shape or not np.allclose(np.sort(dr), want, rtol=1e-12, atol=1e-15):
+        if want.shape != dr.shape or not np.all(np.abs(np.sort(dr) - want) <= 1e-12 * np.abs(want) + 1e-15 + 2 * np.max(rb) * (np.abs(np.sort(dr) - want) <= 1e-6 * np.abs(want))):
             self.v("C15/neighbors-not-the-nearest", got=np.sort(dr)[:6], want=want[:6], size=int(size), n_logged=int(n))
         self._check_training_set("neighbors", U, Y, (S if (S is not None and fl.he_noise_flag) else None), variance=True)
 
@@ -1348,6 +1379,9 @@ class RunMonitor:
                 def cons(X):
                     return mon._cons(X)
 
+                if self.shared_cons is not None:
+                    self.shared_cons.mon = self
+                    cons = self.shared_cons
                 b = BADS(target, non_box_cons=(cons if P.cons is not None else None), options=opts_copy, **args)
             except Exception as e:
                 self.exc = e
